@@ -320,13 +320,48 @@ func gen(r *hlib.Rand, n int, tier, profile string, emit func(string, ...any)) {
 			case x < 5:
 				hs(a, r.Intn(nn))
 			case x < 17:
-				// honest negotiation: a asks b to relay to t; the three control messages are delivered in order
+				// honest negotiation: a asks the relay b for a relay to t; the three control messages are delivered in order
 				t := r.Intn(nn)
+				if r.Chance(3, 4) && mask == 1<<1 {
+					b = 1
+					var c []int
+					for x := 0; x < nn; x++ {
+						if x != a && x != 1 && tun[1][x] {
+							c = append(c, x)
+						}
+					}
+					if len(c) > 0 {
+						t = c[r.Intn(len(c))]
+					}
+					if a == 1 {
+						a = t
+					}
+				}
 				em("ctl %d %d 1 %d 0 0 0 %s %s", a, b, idxGuess(), node(a), node(t))
 				alloc += 2
-				for d := r.Intn(4); d > 0; d-- {
+				nd := hlib.Pick(r, 0, 1, 2, 3, 3, 3)
+				for d := nd; d > 0; d-- {
 					em("deliver 0")
 					alloc++
+				}
+				if nd == 3 && r.Chance(3, 4) {
+					// the relay's index for a is one of the recently allocated ones: sweep them
+					for g := int(alloc) - 7; g <= int(alloc)+2; g++ {
+						if g > 0 {
+							em("fwd %d %d %d", a, b, base+uint32(g))
+						}
+					}
+					if r.Chance(1, 3) {
+						em("reload %d 0", b)
+						for g := int(alloc) - 4; g <= int(alloc); g++ {
+							if g > 0 {
+								em("fwd %d %d %d", a, b, base+uint32(g))
+							}
+						}
+						if r.Bool() {
+							em("reload %d 1", b)
+						}
+					}
 				}
 			case x < 30:
 				// request from a (claiming itself, or lying) through b to some target
